@@ -130,12 +130,66 @@ let run (toks : string list) (cout : string list) : string =
       (match udivides k (is_prime_s m) p q with
        | Some v -> expect "upolynomial_divides" (string_of_bool01 v) res; "CHECK ok"
        | None -> "SKIP")
+    | ["udivides"; m; p; q; d], [res] ->
+      (* a dividend with its cofactor d: q = d*p in Z_M[x] is recomputed here (Zarith, not the generator's word).
+         The answer must be the model's; and whenever neither the leading nor the lowest term of the product vanishes
+         (no zero-divisor effect on deg q and on q's lowest monomial) the code's early exits are sound and its
+         pseudo-division reproduces lc^k * d, so the answer must be 1 - over EVERY modulus, composite ones included.
+         Outside that class only agreement with the model is required; a `0` for a true multiple there is counted
+         (composite moduli: the predicate is incomplete, see docs/C02.md). *)
+      let zs s = List.map ZA.of_string (String.split_on_char ',' s) in
+      let strip l = let rec go = function x :: r when ZA.equal x ZA.zero -> go r | l -> l in List.rev (go (List.rev l)) in
+      let mm = ZA.of_string m in
+      let red c = if ZA.equal mm ZA.zero then c else ZA.erem c mm in
+      let zp = strip (List.map red (zs p)) and zq = strip (List.map red (zs q)) and zd = strip (List.map red (zs d)) in
+      let prod = Array.make (max 0 (List.length zp + List.length zd - 1)) ZA.zero in
+      List.iteri (fun i a -> List.iteri (fun j b -> prod.(i + j) <- ZA.add prod.(i + j) (ZA.mul a b)) zd) zp;
+      let full = List.map red (Array.to_list prod) in
+      need "udivides: the case's cofactor times the divisor is not the dividend (malformed case)" (strip full = zq && zp <> []);
+      let low l = List.find (fun c -> not (ZA.equal c ZA.zero)) l in
+      let keeps = zq <> [] && List.length zq = List.length full
+                  && not (ZA.equal (red (ZA.mul (low zp) (low zd))) ZA.zero) in
+      let k = ring_of m and p = pnorm (upoly_of_string p) and q = pnorm (upoly_of_string q) in
+      (match udivides k (is_prime_s m) p q with
+       | Some v ->
+         expect "upolynomial_divides" (string_of_bool01 v) res;
+         if keeps || zq = [] then expect "upolynomial_divides on a true multiple (degree and lowest term of the product kept)" "1" res;
+         "CHECK ok multiple=" ^ (if keeps then "kept" else "dropped") ^ " answer=" ^ res
+       | None -> "SKIP")
+    | ["umultiple"; m; p; d], [res; q] ->
+      (* decided by construction: the dividend is the product (Division.v umultiple_expected) *)
+      let k = ring_of m and p = pnorm (upoly_of_string p) and d = pnorm (upoly_of_string d) in
+      if p = [] then "SKIP" else begin
+        let (mq, want) = umultiple_expected k p d in
+        expect "lp_upolynomial_mul" (string_of_upoly mq) q;
+        (* the faithful model of the current code, for the known finding over composite moduli (gen/C02.py finding_id) *)
+        let faithful = match udivides k (is_prime_s m) p mq with Some v -> string_of_bool01 v | None -> "none" in
+        if res <> string_of_bool01 want then
+          raise (Fail ("umultiple: lp_upolynomial_divides(p, p*d) expected 1 got " ^ res ^ " faithful-model=" ^ faithful));
+        "CHECK ok"
+      end
+    | ["pdivides"; pm; a; q; r; c], [b; dab; dcb; dcab; back] ->
+      (* prime field context: decided by construction and the field argument (Division.v Part III) *)
+      let p = z_of_string pm in
+      need "pdivides: modulus not prime (malformed case)" (is_prime_s pm);
+      let ma = mp a and mq = mp q and mr = mp r and mc = mp c in
+      need "pdivides: constant c is zero mod p or not a constant (malformed case)"
+        (mp_top mc = None && not (mp_is_zero (mp_modp p mc)));
+      (match pdivides_expected p ma mr with
+       | None -> "SKIP"
+       | Some v ->
+         expect "B = A*Q + R in the Z_p context" (sp (pdivides_dividend p ma mq mr)) b;
+         expect "lp_polynomial_divides(A, A*Q+R) over Z_p" (string_of_bool01 v) dab;
+         expect "lp_polynomial_divides(c, B) over Z_p, c a non-zero constant" "1" dcb;
+         expect "lp_polynomial_divides(c*A, A*Q+R) over Z_p" (string_of_bool01 v) dcab;
+         expect "lp_polynomial_div(B, A) multiplied back == B, quotient == Q" (if v then "11" else "-") back;
+         "CHECK ok pdivides=" ^ string_of_bool01 v)
     | ["udivc"; m; p; c], [d] ->
       let k = ring_of m and p = pnorm (upoly_of_string p) in
       (match udiv_exact_c k p (z_of_string c) with
        | Some md -> expect "div_exact_c" (string_of_upoly md) d; "CHECK ok"
        | None -> "SKIP")
-    | op :: _, _ when List.mem op ["pseudo"; "cpseudo"; "exact"; "exactr"; "divides"; "uexact"; "upseudo"; "udense"; "udivides"; "udivc"] ->
+    | op :: _, _ when List.mem op ["pseudo"; "cpseudo"; "exact"; "exactr"; "divides"; "uexact"; "upseudo"; "udense"; "udivides"; "udivc"; "pdivides"; "umultiple"] ->
       "CHECK fail: the implementation's outputs disagree among fresh/pre-used/aliased output operands, or the line is malformed: " ^ String.concat " " cout
     | _ -> "UNKNOWN-OP"
   with Fail why -> "CHECK fail " ^ why
